@@ -114,6 +114,8 @@ def with_closes(ctx, steps, ws):
             cands = [x for x in ws.workspace_py() if x not in closed]
             # conftests and imported modules are the interesting documents to close
             cands = [c for c in cands if "conftest" in c or "fxm" in c or "/m" in c] or cands
+            if not cands:
+                continue
             rel = ctx.rng.choice(cands)
             out.append({"op": "close", "rel": rel})
             closed.add(rel)
